@@ -49,7 +49,10 @@ def step (st : Option Circuit) (line : String) : Option Circuit × String :=
   match words line with
   | ["findcycle"] =>
     match st with
-    | some c => (st, render (findCycle c))
+    | some c =>
+      -- a dangling gate reference violates the documented precondition: whether the real call
+      -- panics or finds a cycle first depends on the traversal order, which nothing specifies
+      if gateRefsB c then (st, render (findCycle c)) else (st, "precondition-violated")
     | none => (st, "bad-op")
   | "circuit" :: _ =>
     match parseCircuit? line with
